@@ -78,7 +78,7 @@ Print Assumptions C05_code_derivative_operator_is_model.
 
 (* the Poisson solver of the source (Poisson.__init__ / step_fourier, re-translated on every run by harness/translate/linops.py together
    with build_laplace_operator) is the model's poisson_mode with the Laplace symbol of the requested (even) order, at every mode *)
-From EXV Require Import Gen.LinOps Tie.LinOpsTie.
+From EXV Require Import Gen.LinOps Gen.OperatorsGen Tie.LinOpsTie Tie.PoissonTie.
 Theorem C05_code_poisson_is_model : forall (F : FieldT) (d : list F) (order : nat) (f : F),
   gen_poisson_step_fourier F (gen_poisson_inv_operator F d order) f = poisson_mode F (laplace_sym F order d) f
   /\ gen_build_laplace_operator F d order = laplace_sym F order d.
